@@ -170,6 +170,48 @@ def check(ctx):
                and body[3][0] == "phi" and body[3][1] == ("cmp", "in", ("sub", el, ("const", 1)), ("param", "rhs_called_contests"))
                and body[3][2][0] == "setitem" and body[3][2][2] == ("sub", el, ("const", 0)) and body[3][2][3] == ("param", "rhs_value")
                and body[3][3][0] == "loopin")
+    if not okv and rt[0] == "loopout":
+        # the same loop in other words: index by range(len(contests)) and contests[i], membership tested against set(..) / list(..) copies
+        # of the two lists, if / elif or two ifs - evaluated per contest for the three possible memberships
+        P_ = lambda n_: ("param", n_)  # noqa: E731
+        init, body, dom = rt[3], rt[4], rt[5]
+        LENC = ("call", ("global", "len"), (P_("contests"),), ())
+        el = next((x for x in ir.walk(body) if x[0] == "elem" and x[2] == rt[1]), None)
+        idx = con = None
+        if el is not None and dom == ("call", ("global", "enumerate"), (P_("contests"),), ()):
+            idx, con = ("sub", el, ("const", 0)), ("sub", el, ("const", 1))
+        elif el is not None and dom == ("call", ("global", "range"), (LENC,), ()):
+            idx, con = el, ("sub", P_("contests"), el)
+        init_ok = init[0] == "call" and ir.show(init[1]).endswith("full") and len(init[2]) >= 2 and init[2][0] == LENC and init[2][1] == P_("fill_value")
+
+        def member(c_, inL, inR):
+            if c_[0] == "cmp" and c_[1] in ("in", "not in") and c_[2] == con:
+                raw = c_[3]
+                while raw[0] == "call" and raw[1][0] == "global" and raw[1][1] in ("set", "frozenset", "list", "tuple", "sorted") and len(raw[2]) == 1:
+                    raw = raw[2][0]
+                if raw in (P_("lhs_called_contests"), P_("rhs_called_contests")):
+                    v = inL if raw == P_("lhs_called_contests") else inR
+                    return v if c_[1] == "in" else not v
+            if c_[0] == "bool":
+                vs = [member(x, inL, inR) for x in c_[2]]
+                return None if any(v is None for v in vs) else (all(vs) if c_[1] == "and" else any(vs))
+            if c_[0] == "un" and c_[1] == "not":
+                v = member(c_[2], inL, inR)
+                return None if v is None else not v
+            return None
+
+        def evl(t, inL, inR):
+            if t[0] == "loopin":
+                return "F"
+            if t[0] == "setitem" and t[2] == idx:
+                return {P_("lhs_value"): "L", P_("rhs_value"): "R", P_("fill_value"): "F"}.get(t[3])
+            if t[0] == "phi":
+                m = member(t[1], inL, inR)
+                return None if m is None else evl(t[2] if m else t[3], inL, inR)
+            return None
+        if idx is not None and init_ok:
+            got_ = {k_: evl(body, *v_) for k_, v_ in (("left", (True, False)), ("right", (False, True)), ("neither", (False, False)))}
+            okv = got_ == {"left": "L", "right": "R", "neither": "F"}
     why_not = f"vector construction changed: {ir.show(rt, maxdepth=6)[:200]}"
     if not okv:
         # other idiom: start from full(len(contests), fill) and assign by boolean masks. Evaluated per contest for the three possible
